@@ -54,7 +54,7 @@ for cp in range(0x110000):
     if ok != (ch in E): bad.append(["membership", cp])
     if ok:
         n_ok += 1
-        if out != bytes([E[ch]]) : bad.append(["value", cp])
+        if ch in E and out != bytes([E[ch]]) : bad.append(["value", cp])
     if len(bad) > 5: break
 res["codepoints_bad"] = bad
 res["codepoints_encodable"] = n_ok
